@@ -1,7 +1,7 @@
 #!/venv/bin/python
 """Dev helper: confirm a sub-agent's seeded change and store it under /verif/seeded/<ID>-<k>/.
 
-usage: seed_ingest.py <worktree> <ID> <k> [--keep-name NAME]
+usage: seed_ingest.py <worktree> <ID> <k> [srcdir] [dstname] [neutral]   (defaults: srcdir=seed<k>, dstname=<ID>-<k>, breaking)
 Steps (all in the scratch worktree, never in /repo, except the final check run which applies and reverts the patch):
   1. pristine src: demo must print PROPERTY HOLDS, exit 0
   2. git apply patch: demo must print PROPERTY VIOLATED, exit 1; pinned tests must still pass
@@ -12,7 +12,10 @@ import json, os, shutil, subprocess, sys
 from concurrent.futures import ThreadPoolExecutor
 
 wt, pid, k = sys.argv[1], sys.argv[2], sys.argv[3]
-sd = os.path.join(wt, f"seed{k}")
+srcdir = sys.argv[4] if len(sys.argv) > 4 else f"seed{k}"
+dstname = sys.argv[5] if len(sys.argv) > 5 else f"{pid}-{k}"
+neutral = len(sys.argv) > 6 and sys.argv[6] == "neutral"
+sd = os.path.join(wt, srcdir)
 patch = os.path.join(sd, "patch.diff")
 env = dict(os.environ, PYTHONPATH=os.path.join(wt, "src"), PYTHONDONTWRITEBYTECODE="1")
 
@@ -46,12 +49,16 @@ t = sh(["/venv/bin/python", os.path.join(wt, "run_tests.py")], cwd=wt)
 print("tests   :", t.stdout.strip().splitlines()[0] if t.stdout.strip() else t.stderr[-200:])
 comp = sh(["/venv/bin/python", "-m", "compileall", "-q", os.path.join(wt, "src", "autobahn")], env=env)
 sh(["git", "-C", wt, "checkout", "--", "src"])
-ok = rc0 == 0 and l0.startswith("PROPERTY HOLDS") and rc1 == 1 and l1.startswith("PROPERTY VIOLATED") and t.returncode == 0 \
-    and all(x.startswith("src/autobahn/") and "/test/" not in x for x in touched)
+if neutral:
+    ok = rc0 == 0 and l0.startswith("PROPERTY HOLDS") and rc1 == 0 and l1.startswith("PROPERTY HOLDS") and t.returncode == 0 \
+        and all(x.startswith("src/autobahn/") and "/test/" not in x for x in touched)
+else:
+    ok = rc0 == 0 and l0.startswith("PROPERTY HOLDS") and rc1 == 1 and l1.startswith("PROPERTY VIOLATED") and t.returncode == 0 \
+        and all(x.startswith("src/autobahn/") and "/test/" not in x for x in touched)
 print("CONFIRMED" if ok else "NOT CONFIRMED", "touched:", touched)
 if not ok:
     sys.exit(1)
-dst = f"/verif/seeded/{pid}-{k}"
+dst = f"/verif/seeded/{dstname}"
 os.makedirs(dst, exist_ok=True)
 for f in ("patch.diff", "demo.py", "meta.json"):
     shutil.copy(os.path.join(sd, f), os.path.join(dst, f))
@@ -76,11 +83,18 @@ errs = {i: e for i, rc, v, e in res if rc == 2}
 meta = json.load(open(os.path.join(dst, "meta.json")))
 meta["confirmed"] = {"pristine": l0[:200], "patched": l1[:300], "tests": "288 baseline tests pass with the patch"}
 meta["checks_firing"] = {i: [x[:260] for x in v] for i, v in fired.items()}
-meta["own_check_detects"] = pid in fired
+meta["kind"] = "neutral" if neutral else "breaking"
+if neutral:
+    meta["false_alarms"] = sorted(fired)
+else:
+    meta["own_check_detects"] = pid in fired
 if errs:
     meta["analysis_errors"] = errs
 json.dump(meta, open(os.path.join(dst, "meta.json"), "w"), indent=1)
-print("own check", pid, "DETECTS" if pid in fired else "MISSES", "| firing:", sorted(fired), "| analysis errors:", sorted(errs))
+if neutral:
+    print("NEUTRAL:", "silent" if not fired and not errs else "FALSE ALARM" if fired else "BLIND", "| firing:", sorted(fired), "| analysis errors:", sorted(errs))
+else:
+    print("own check", pid, "DETECTS" if pid in fired else "MISSES", "| firing:", sorted(fired), "| analysis errors:", sorted(errs))
 for i, v in fired.items():
     for x in v[:3]:
         print("   ", i, x[:230])
